@@ -94,6 +94,12 @@ fn jsnap(st: &hj::AppState) -> Value {
     json!({ "backtests": bts, "last": st.last })
 }
 
+/// a dataset name as one percent-encoded path segment (what a correct HTTP client sends for a name containing `/`, `%`,
+/// `+`, spaces …); the route's extractor has to give the handler the decoded name back
+fn path_segment(name: &str) -> String {
+    percent_encoding::utf8_percent_encode(name, percent_encoding::NON_ALPHANUMERIC).to_string()
+}
+
 fn some_or_null(v: Option<Value>) -> Value {
     match v {
         Some(x) => json!({ "some": x }),
@@ -139,7 +145,7 @@ where
     let req = match o.as_str() {
         "tick" => test::TestRequest::get().uri(&format!("/backtest/{}/tick", u(&op["id"]))),
         "fetch" => test::TestRequest::get().uri(&format!("/backtest/{}/fetch_quotes", u(&op["id"]))),
-        "init" => test::TestRequest::get().uri(&format!("/init/{}", s(&op["name"]))),
+        "init" => test::TestRequest::get().uri(&format!("/init/{}", path_segment(&s(&op["name"])))),
         "info" => test::TestRequest::get().uri(&format!("/backtest/{}/info", u(&op["id"]))),
         "now" => test::TestRequest::get().uri(&format!("/backtest/{}/now", u(&op["id"]))),
         "insert" => test::TestRequest::post()
@@ -293,7 +299,7 @@ where
     let req = match o.as_str() {
         "tick" => test::TestRequest::get().uri(&format!("/backtest/{}/tick", u(&op["id"]))),
         "fetch" => test::TestRequest::get().uri(&format!("/backtest/{}/fetch_quotes", u(&op["id"]))),
-        "init" => test::TestRequest::get().uri(&format!("/init/{}", s(&op["name"]))),
+        "init" => test::TestRequest::get().uri(&format!("/init/{}", path_segment(&s(&op["name"])))),
         "info" => test::TestRequest::get().uri(&format!("/backtest/{}/info", u(&op["id"]))),
         "insert" => test::TestRequest::post()
             .uri(&format!("/backtest/{}/insert_order", u(&op["id"])))
